@@ -81,6 +81,7 @@ GhostInit(S) ==
     starting |-> {},                      \* servers inside NewRaft (between `restart` and the `started` state line)
     rcur     |-> [n \in S |-> 0],         \* the user Restore call made last on n (op id, 0 = none)
     rres     |-> EmptyFn,                 \* Restore op id -> its result, once returned
+    reff     |-> {},                      \* Restore calls that were carried out (their snapshot was written), whatever they return
     abOf     |-> EmptyFn,                 \* payload id -> the Restore call that aborted its Apply
     abOK     |-> {},                      \* payload ids aborted by a Restore that returned nil
     done     |-> {},                      \* client operations that have returned
@@ -559,7 +560,7 @@ DoSnap(ln) ==
                      IN IF isUser /\ (i <= LogLast(dlog[n]) \/ i <= sidx \/ i <= obs[n].last)
                         THEN {<<"C20", "RestoreIndexNotFresh", <<n, i, LogLast(dlog[n]), sidx, obs[n].last>>>>} ELSE {})
          rec == [cfg |-> ln.cfg, cfgidx |-> ln.cfgidx, content |-> ln.content, id |-> ln.id, idx |-> ln.idx, term |-> ln.term]
-     IN /\ g' = [g EXCEPT !.bases = b2, !.burned = d2]
+     IN /\ g' = [g EXCEPT !.bases = b2, !.burned = d2, !.reff = IF isUser /\ g.rcur[n] # 0 THEN @ \cup {g.rcur[n]} ELSE @]
         \* the closed snapshot is durable from now on (the next state line lists the store's content)
         /\ dsnaps' = [dsnaps EXCEPT ![n] = IF SnapIdxOf(@) <= ln.idx THEN <<rec>> \o @ ELSE @]
         /\ Judge(V, {}) /\ UNCHANGED <<hdr, obs, dlog>>
@@ -625,10 +626,12 @@ DoReturn(ln) ==
       newOK  == IF okR THEN {x \in DOMAIN g.abOf : g.abOf[x] = ln.op}
                 ELSE IF isAb /\ ln.kind = "apply" /\ g.rcur[n] \in DOMAIN g.rres /\ g.rres[g.rcur[n]] = "" THEN {ln.arg} ELSE {}
       vAb    == {<<"C02", "AbortedEntryApplied", <<a[1], a[2], a[3]>>>> : a \in {x \in g.abApp : x[3] \in newOK}}
-                \* a Restore that is refused has no effect: nobody's call is aborted by it
-                \cup (IF ln.kind = "restore" /\ ln.err \in Refusals /\ {x \in DOMAIN abOf2 : abOf2[x] = ln.op} # {}
+                \* a Restore that is refused has no effect: nobody's call is aborted by it. (A Restore that was carried out
+                \* -- its snapshot was written -- may still return ErrNotLeader / ErrLeadershipTransferInProgress / ...:
+                \* that is the answer to the no-op Restore() appends afterwards, not a refusal.)
+                \cup (IF ln.kind = "restore" /\ ln.err \in Refusals /\ ln.op \notin g.reff /\ {x \in DOMAIN abOf2 : abOf2[x] = ln.op} # {}
                       THEN {<<"C20", "RefusedRestoreAbortedCalls", <<n, ln.op, ln.err, {x \in DOMAIN abOf2 : abOf2[x] = ln.op}>>>>} ELSE {})
-                \cup (IF isAb /\ g.rcur[n] \in DOMAIN g.rres /\ g.rres[g.rcur[n]] \in Refusals
+                \cup (IF isAb /\ g.rcur[n] \in DOMAIN g.rres /\ g.rres[g.rcur[n]] \in Refusals /\ g.rcur[n] \notin g.reff
                       THEN {<<"C20", "RefusedRestoreAbortedCalls", <<n, g.rcur[n], g.rres[g.rcur[n]], {abKey}>>>>} ELSE {})
       V == vApply \cup vBarrier \cup vVerify \cup vDown \cup vMember \cup vAb
   IN /\ g' = [g EXCEPT !.abOf = abOf2, !.abOK = @ \cup newOK, !.done = @ \cup {ln.op}, !.rres = rres2,
